@@ -221,7 +221,7 @@ fn corruptions(tree: &Tree) -> Vec<Corruption> {
     tree.walk(&mut |n| match n {
         Tree::C(_, outs) => {
             for pos in 0..outs.len() {
-                for val in [0.0, -1.0, f64::NAN, f64::INFINITY] {
+                for val in [0.0, -1.0, f64::NAN, f64::INFINITY, 1e308] {
                     res.push(Corruption::Weight(ni, pos, val));
                 }
             }
